@@ -67,9 +67,9 @@ def _replay(mod, ctx: F.Ctx, path: Path) -> int:
     if doc.get("history"):
         # the verdict needs the evaluations that preceded it in the same process
         for c in doc["history"]:
-            out = mod.replay(c, ctx)
+            out = F.call_guarded(mod.replay, c, ctx)
     else:
-        out = mod.replay(doc["case"], ctx)
+        out = F.call_guarded(mod.replay, doc["case"], ctx)
     print(json.dumps({"ok": out.ok, "sig": out.sig,
                       "detail": F.jsonable(out.detail)}, indent=1))
     if out.ok:
@@ -103,7 +103,7 @@ def _finish(mod, ctx: F.Ctx, rep: F.Report, meta: dict, wall: float) -> int:
     confirmed: set = set()
     unreproduced: list = []
     for v in rep.violations:
-        again = None if v.get("twice") else mod.replay(F.jsonable(v["case"]), ctx)
+        again = None if v.get("twice") else F.call_guarded(mod.replay, F.jsonable(v["case"]), ctx)
         if again is not None and not again.ok and again.sig == v["sig"]:
             confirmed.add(v["sig"])
             continue
